@@ -21,7 +21,7 @@ Print Assumptions C03_conservation.
 (* the sink loop: the observations appended by dispatching one statement are exactly one write per
    sink in [written], in the logger's sink order *)
 Theorem C03_sink_loop : forall e ks s, NoDup ks ->
-  obs (fst (dispatch s e ks)) = obs s ++ flat_map (fun k => [O_WRITE; N.of_nat k; wid e; elvl e]) (written s e ks) /\
+  obs (fst (dispatch s e ks)) = obs s ++ flat_map (fun k => [O_WRITE; N.of_nat k; wid e; elvl e; snamed e]) (written s e ks) /\
   snd (dispatch s e ks) = some_throws s e ks.
 Proof. exact dispatch_spec. Qed.
 Print Assumptions C03_sink_loop.
